@@ -102,10 +102,25 @@ def run_property(pid, tier, seed, only=None):
     lines = []
     for r in known_hit:
         lines.append(f"KNOWN-FINDING: property={pid} {r.name}: {open_findings[r.name].get('what_fails', '')}")
+    fallback = None
     for r in violations:
         path = os.path.join(ROOT, "replays", pid, _safe(r.name) + ".json")
         rep = r.replay or {}
         confirmed = bool(rep.get("confirmed"))
+        if not confirmed and not os.environ.get("VT_NO_NATIVE_FALLBACK"):
+            # no counter-model replayed for this obligation: look for a failing input of the PROPERTY on the same tree
+            # with the property-level native batteries (once per run); they pass on the tree the contracts were
+            # written against, so a failure is a concrete input on which the real code breaks the property
+            if fallback is None:
+                from . import thorough as TH
+
+                fallback = TH.property_level_native(pid)
+            hit = [x for x in fallback if x.get("confirmed")]
+            if hit:
+                rep = {"tier": "native-property-battery", "confirmed": True, "obligation_replay": rep,
+                       "note": "the obligation's own counter-model was not replayed; a property-level native battery fails on this tree (real package, concrete inputs)",
+                       "failing_inputs": hit}
+                confirmed = True
         doc = {
             "property": pid,
             "obligation": r.name,
